@@ -60,7 +60,7 @@ class Connection(object):
     def sendall(I, args, kw):
         self, data = args[0], args[1]
         self.fields.setdefault('sent', []).append(data)
-        I.path.event('send', taint_of(data))
+        I.path.event('send', taint_of(data), data)
         return None
 
     @model
